@@ -103,7 +103,48 @@ def _vary_warnings(i, rec):
     rec.count("case_processes_with_repository_warnings_as_errors")
 
 
-def _child(i, case, fn, resdir, workroot, quiet):
+class _WriteOnly:
+    """what a GUI console / logging redirector puts in sys.stdout: print() needs nothing but write()"""
+    def __init__(self):
+        self.n = 0
+
+    def write(self, text):
+        self.n += len(text)
+        return len(text)
+
+
+def _call_in_context(i, fn, case, work, rec):
+    """The caller's side of a case: every fifth case body runs in a worker thread instead of the main thread (a
+    GUI / notebook / ThreadPoolExecutor caller: signal handlers cannot be installed there, thread-local state
+    is fresh), and every seventh with sys.stdout replaced by an object that has write() and nothing else."""
+    stdout = sys.stdout
+    if os.environ.get("VERIF_STDOUT", "vary") == "vary" and i % 7 == 5:
+        sys.stdout = _WriteOnly()
+        rec.count("case_bodies_run_with_write_only_stdout")
+    try:
+        if os.environ.get("VERIF_THREAD", "vary") == "vary" and i % 5 == 3:
+            import threading
+            rec.count("case_bodies_run_in_a_worker_thread")
+            box = {}
+
+            def body():
+                try:
+                    fn(case, work, rec)
+                except BaseException as e:
+                    box["exc"] = e
+            t = threading.Thread(target=body, name="caller")
+            t.start()
+            t.join()
+            if "exc" in box:
+                raise box["exc"]
+        else:
+            fn(case, work, rec)
+    finally:
+        sys.stdout = stdout
+
+
+def _child(i, case, fn, resdir, workroot, quiet, ctx=None):
+    ctx = i if ctx is None else ctx      # what the per-process variations (CPUs, warnings, caller context) key on
     try:
         os.setpgid(0, 0)
     except OSError:
@@ -112,20 +153,30 @@ def _child(i, case, fn, resdir, workroot, quiet):
     work = os.path.join(workroot, f"c{i}")
     os.makedirs(work, exist_ok=True)
     rec = Recorder(case)
-    out = {"i": i}
+    out = {"i": i, "ctx": ctx}
     linecov.start(f"{os.getppid()}_{i}")
-    _vary_cpus(i, rec)
-    _vary_warnings(i, rec)
+    _vary_cpus(ctx, rec)
+    _vary_warnings(ctx, rec)
+    def finish():
+        _finish(i, out, rec, resdir, work)
+    global FINISH
+    FINISH = finish      # a monitor thread that decided the case while the main thread is stuck ends the process with it
     try:
         if quiet:
             with common.quiet_fds(os.path.join(work, ".stdio")):
-                fn(case, work, rec)
+                _call_in_context(ctx, fn, case, work, rec)
         else:
-            fn(case, work, rec)
-        out["rec"] = rec.dump()
+            _call_in_context(ctx, fn, case, work, rec)
     except BaseException:
-        out["rec"] = rec.dump()
         out["error"] = traceback.format_exc()[-4000:]
+    finish()
+
+
+FINISH = None
+
+
+def _finish(i, out, rec, resdir, work):
+    out["rec"] = rec.dump()
     linecov.stop()
     try:
         from . import typefuzz
@@ -151,9 +202,15 @@ def _child(i, case, fn, resdir, workroot, quiet):
         os.rename(tmp, os.path.join(resdir, f"{i}.json"))
     finally:
         shutil.rmtree(work, ignore_errors=True)
-        sys.stdout.flush(); sys.stderr.flush()
+        try:
+            sys.stdout.flush(); sys.stderr.flush()
+        except Exception:
+            pass
         # kill leaked pool workers of this case (same process group), then leave
-        signal.signal(signal.SIGTERM, signal.SIG_IGN)
+        try:
+            signal.signal(signal.SIGTERM, signal.SIG_IGN)
+        except ValueError:      # called from a monitor thread: the group signal ends this process too (the result is written)
+            pass
         try:
             os.killpg(os.getpgid(0), signal.SIGTERM)
         except OSError:
@@ -161,7 +218,7 @@ def _child(i, case, fn, resdir, workroot, quiet):
         os._exit(0)
 
 
-def run_cases(cases, fn, nproc=None, timeout=180, quiet=True, progress=None):
+def run_cases(cases, fn, nproc=None, timeout=180, quiet=True, progress=None, indices=None):
     """Run fn(case, workdir, rec) for every case in its own process. Returns list of dicts
     {i, rec, error?, timeout?} in case order."""
     nproc = nproc or int(os.environ.get("VERIF_NPROC", min(16, os.cpu_count() or 4)))
@@ -179,7 +236,12 @@ def run_cases(cases, fn, nproc=None, timeout=180, quiet=True, progress=None):
             sys.stdout.flush(); sys.stderr.flush()
             pid = os.fork()
             if pid == 0:
-                _child(nxt, cases[nxt], fn, resdir, workroot, quiet)
+                try:        # what a case that meets the watchdog was doing (all threads), for the inconclusive report
+                    import faulthandler
+                    faulthandler.dump_traceback_later(max(1.0, timeout * 0.95), file=open(os.path.join(resdir, f"{nxt}.stack"), "w"))
+                except Exception:
+                    pass
+                _child(nxt, cases[nxt], fn, resdir, workroot, quiet, ctx=indices[nxt] if indices else nxt)
             running[pid] = (nxt, time.time())
             nxt += 1
         try:
@@ -215,6 +277,11 @@ def run_cases(cases, fn, nproc=None, timeout=180, quiet=True, progress=None):
                         pass
                     running.pop(p)
                     results[i] = {"i": i, "timeout": True, "rec": None}
+                    try:
+                        with open(os.path.join(resdir, f"{i}.stack")) as f:
+                            results[i]["stack"] = f.read()[-3000:]
+                    except OSError:
+                        pass
                     shutil.rmtree(os.path.join(workroot, f"c{i}"), ignore_errors=True)
                     done += 1
             time.sleep(0.002)
